@@ -6,15 +6,15 @@ ROOT = os.path.dirname(os.path.dirname(os.path.abspath(__file__)))
 
 CHECKS = {
  "C16": dict(cat="exploration", ref="DESIGN.md §4 C16",
-   text="Model-based stateful property testing: every BitMatrix dimension 1..130 x 1..8 and every BitArray size 0..200 is driven through generated operation sequences against a naive bool-grid model with all queries compared after every step. The dimension space is covered completely, contents and sequences are sampled; exploration is the right level because the property quantifies over unbounded histories.",
+   text="Model-based stateful property testing: every BitMatrix dimension 1..130 x 1..8 and every BitArray size 0..200 is driven through generated operation sequences against a naive bool-grid model with all queries compared after every step. The dimension space is covered completely, contents and sequences are sampled; exploration is the right level because the property quantifies over unbounded histories. Caller-supplied row buffers arrive dirty (all bits set).",
    note="Trusted: the naive [][]bool / []bool model in checks/c16 (a few lines per operation) and rapid's generators. Unchecked accessors only receive in-range indices.",
    tech="model-based stateful property testing (rapid) against a naive model"),
  "C20": dict(cat="exploration", ref="DESIGN.md §4 C20",
-   text="Generated rows / start offsets / counter lengths against a run-length model, and the pattern-match score against the stated formula evaluated in exact rational arithmetic for every row of every library pattern table with all small counter vectors (exhaustive in the thorough tier) plus rapid-generated larger ones; +Inf classes and scale invariance included.",
+   text="Generated rows / start offsets / counter lengths against a run-length model, and the pattern-match score against the stated formula evaluated in exact rational arithmetic for every row of every library pattern table with all small counter vectors (exhaustive in the thorough tier) plus rapid-generated larger ones; +Inf classes and scale invariance included. The three best-match decoders (ITF, Code 128, UPC/EAN) are compared with 'unique lowest reference score below the limit' over all small run vectors and rapid-generated distortions.",
    note="Trusted: the run-length model and the big.Rat formula in checks/c20; tables come from the verif-tagged hooks. Cases within 1e-9 of the individual-variance boundary are skipped.",
    tech="property-based testing against a reference model / exact-rational formula; small domains enumerated"),
  "C01": dict(cat="exploration", ref="DESIGN.md §4 C01",
-   text="Round-trip property testing: all 1280 (version, level, mask) configurations with boundary payloads (capacity, capacity-1 from the independent formula) over all content classes, plus rapid-generated (content class, hints, margin, requested size, matrix path / rendered-image pure-barcode path). The configuration space is enumerated, payloads sampled; a round trip over sampled payloads is the appropriate level for a forall-text property.",
+   text="Round-trip property testing: all 1280 (version, level, mask) configurations with boundary payloads (capacity, capacity-1 from the independent formula) over all content classes, plus rapid-generated (content class, hints, margin, requested size, matrix path / rendered-image pure-barcode path). The configuration space is enumerated, payloads sampled; a round trip over sampled payloads is the appropriate level for a forall-text property. Also: every text length 1..capacity per mode for sampled versions, and histories of 2-4 symbols through one writer, one reader and one decoder instance with failing reads in between.",
    note="Trusted: capacity/fit formulae in internal/qrref (validated against the published 7089/4296/2953/1817 figures), x/text as the oracle for which text a charset can represent. Round trips cannot see errors shared by writer and reader; C07 covers those.",
    tech="round-trip property-based testing (rapid) + exhaustive configuration grid"),
  "C04": dict(cat="exploration", ref="DESIGN.md §4 C04",
@@ -38,19 +38,19 @@ CHECKS = {
    note="Trusted: capacity formulae in internal/qrref and the attribute table in internal/dmref, both anchored to the published figures (7089/4296/2953/1817, 1558) at the start of every run.",
    tech="exhaustive enumeration against an independently computed minimum"),
  "C02": dict(cat="exploration", ref="DESIGN.md §4 C02",
-   text="Grammar-based property testing: Latin-1 texts built from runs over ten character classes (so that every encodation mode, latch, unlatch and end-of-data rule is reached), macro envelopes, shape / min / max hints and forced sizes, checked at codeword level (hundreds of thousands of cases) and through the full writer -> image -> pure-barcode reader pipeline for all 30 sizes; oracle = termination (watchdog with isolated re-run), exact round trip, refusal of non-Latin-1 text, acceptance whenever the plain ASCII encodation + 16 codewords fits.",
+   text="Grammar-based property testing: Latin-1 texts built from runs over ten character classes (so that every encodation mode, latch, unlatch and end-of-data rule is reached), macro envelopes, shape / min / max hints and forced sizes, checked at codeword level (hundreds of thousands of cases) and through the full writer -> image -> pure-barcode reader pipeline for all 30 sizes; oracle = termination (watchdog with isolated re-run), exact round trip, refusal of non-Latin-1 text, acceptance whenever the plain ASCII encodation + 16 codewords fits. Also: every run length 1..1555 of extended bytes (alone and embedded), every tail of <= 5 characters after each mode prefix, and histories through one writer and one reader instance.",
    note="Trusted: the ASCII-length sufficient condition for 'fits'; x/text is not involved. The check cannot show optimality of the encodation, only correctness of what is produced.",
    tech="grammar-based round-trip property testing (rapid) with a termination watchdog"),
  "C03": dict(cat="exploration", ref="DESIGN.md §4 C03",
-   text="Round-trip property testing per symbology with content generators that follow the property's quantifier (lengths, alphabets, code sets, guard pairs), geometry (width up to 8x, height 0..80, margin >= default), the multi-format UPC/EAN reader, a rejection side for malformed contents, and the complete UPC-E (2*10^6) and EAN-8 (10^7) number spaces in the thorough tier.",
+   text="Round-trip property testing per symbology with content generators that follow the property's quantifier (lengths, alphabets, code sets, guard pairs), geometry (width up to 8x, height 0..80, margin >= default), the multi-format UPC/EAN reader, a rejection side for malformed contents, and the complete UPC-E (2*10^6) and EAN-8 (10^7) number spaces in the thorough tier. Also: all ASCII pairs / all ITF lengths, every order of POSSIBLE_FORMATS for the multi reader, and histories through one writer and one reader per symbology with failed reads in between.",
    note="Trusted: the independent mod-10 / UPC-E expansion formulae in internal/onedref for canonical forms. One known finding (UPC-E default margin vs. the reader's trailing quiet zone) is listed in known_findings.json and steered around by construction (counted).",
    tech="round-trip property-based testing (rapid) + exhaustive number-space enumeration"),
  "C10": dict(cat="fault_enumeration", ref="DESIGN.md §4 C10",
-   text="Fault enumeration over check characters: every single-digit substitution (9*len) of UPC/EAN numbers is carried by an independently constructed symbol and must be rejected unless the independent predicate says it verifies; every replacement of one Code 128 / Code 93 symbol character by every other data value must be rejected; writer check characters are compared with the mod-103 / mod-47 formulae through pattern tables typed from the standards; wrong supplied check digits must be refused; UPC-E expansion vs. zero suppression over the whole number space; all EAN-2 add-ons and EAN-5 add-ons x all 32 parity patterns.",
+   text="Fault enumeration over check characters: every single-digit substitution (9*len) of UPC/EAN numbers is carried by an independently constructed symbol and must be rejected unless the independent predicate says it verifies; every replacement of one Code 128 / Code 93 symbol character by every other data value must be rejected; writer check characters are compared with the mod-103 / mod-47 formulae through pattern tables typed from the standards; wrong supplied check digits must be refused; UPC-E expansion vs. zero suppression over the whole number space; all EAN-2 add-ons and EAN-5 add-ons x all 32 parity patterns. Add-on reads are also run as histories (refused add-on, then a valid one) on a single reader instance.",
    note="Trusted: internal/onedref (UPC/EAN codes, parity tables, Code 128 / Code 93 tables with structural self-checks, checksum formulae). One known finding (upside-down UPC-E misread) is listed in known_findings.json with a matcher specific to that root cause.",
    tech="fault enumeration over substitutions with independently constructed symbols and an independent validity predicate"),
  "C09": dict(cat="exploration", ref="DESIGN.md §4 C09",
-   text="Generated poses (integer scale, four rotations, QR mirroring, independent padding per side, nil / TRY_HARDER hints) of writer output for QR, Data Matrix and the nine 1-D symbologies are read through the locating path; the result must be the encoded content or a ReaderException, never other content. The positive clauses (1-D upside down with ORIENTATION 180, sideways with TRY_HARDER, transposed QR matrix flagged mirrored) are asserted on the domains the property states. Success rates per symbology and rotation are reported so that the negative guarantee is not satisfied vacuously.",
+   text="Generated poses (integer scale, four rotations, QR mirroring, independent padding per side, nil / TRY_HARDER hints) of writer output for QR, Data Matrix and the nine 1-D symbologies are read through the locating path; the result must be the encoded content or a ReaderException, never other content. The positive clauses (1-D upside down with ORIENTATION 180, sideways with TRY_HARDER, transposed QR matrix flagged mirrored) are asserted on the domains the property states. Success rates per symbology and rotation are reported so that the negative guarantee is not satisfied vacuously. Every successful read's ORIENTATION metadata must be a quarter turn within the documented [0,360) that matches the rotation applied.",
    note="Statistical by nature: RS/BCH/check digits make a misread rare by design; the search is over poses and payloads, not over all images. UPC-E upside-down misreads would be matched against the known-finding class shared with C10.",
    tech="metamorphic property-based testing over image poses (rapid)"),
  "C14": dict(cat="exploration", ref="DESIGN.md §4 C14",
@@ -58,15 +58,15 @@ CHECKS = {
    note="Trusted: the 30-line formula implementation in checks/c14 (the property's own formula).",
    tech="exhaustive small-range enumeration + property-based testing against a formula oracle"),
  "C15": dict(cat="exploration", ref="DESIGN.md §4 C15",
-   text="Every registered charset under every name and alias: single-byte repertoires exhaustively, multi-byte sets sampled, through the QR writer/reader with the ECI designator checked against the AIM assignment list typed in the check and the byte segment against x/text; registry laws over all values and names; every ECI number up to 1100 in all three designator forms (sampled to 999999) in hand-built streams; decode-side hints; unhinted UTF-8 adversarial for the guesser.",
+   text="Every registered charset under every name and alias: single-byte repertoires exhaustively, multi-byte sets sampled, through the QR writer/reader with the ECI designator checked against the AIM assignment list typed in the check and the byte segment against x/text; registry laws over all values and names; every ECI number up to 1100 in all three designator forms (sampled to 999999) in hand-built streams; decode-side hints; unhinted UTF-8 adversarial for the guesser. Each designated symbol is re-read with a conflicting decode-side CHARACTER_SET hint (the designator must win).",
    note="Trusted: x/text encoders/decoders as the oracle for what is representable (not for gozxing's behaviour) and the AIM number table typed in checks/c15.",
    tech="round-trip property testing + exhaustive registry / ECI-number enumeration against an independent table"),
  "C19": dict(cat="exploration", ref="DESIGN.md §4 C19",
-   text="The transform is compared with an independent projective solve in 256-bit floats over rapid-generated convex quadrilateral pairs; sampled grids are compared cell by cell with the image pixel under the independently transformed cell centre; the nudge rules are enumerated on all four sides, both row ends and 11 distances, directly and through sampling with translated / sheared grids; all-black images detect any read outside the image.",
+   text="The transform is compared with an independent projective solve in 256-bit floats over rapid-generated convex quadrilateral pairs; sampled grids are compared cell by cell with the image pixel under the independently transformed cell centre; the nudge rules are enumerated on all four sides, both row ends and 11 distances, directly and through sampling with translated / sheared grids; all-black images detect any read outside the image. Grid-side reference points are also re-listed from other corners, reversed, or general convex quadrilaterals; twisted image-side quadrilaterals (as misdetected symbols give) must yield NotFound or image pixels only.",
    note="Trusted: the 8x8 Gaussian elimination in big.Float in checks/c19. Cells within 1e-6 of a pixel boundary are skipped; degenerate quadrilaterals are not generated.",
    tech="property-based testing against an extended-precision reference + enumerated edge-rule cases"),
  "C17": dict(cat="exploration", ref="DESIGN.md §4 C17",
-   text="Model-based testing of luminance views: eight source kinds x generated sizes / pixel contents x sequences of up to six crop / invert / rotate operations (valid and invalid) against a naive 2-D array model, every row and the full matrix compared after each step; bilevel images (incl. rendered symbols of all writers, sizes around the 40-pixel switch) through both binarisers and the BinaryBitmap API against the exact black-pixel model.",
+   text="Model-based testing of luminance views: eight source kinds x generated sizes / pixel contents x sequences of up to six crop / invert / rotate operations (valid and invalid) against a naive 2-D array model, every row and the full matrix compared after each step; bilevel images (incl. rendered symbols of all writers, sizes around the 40-pixel switch) through both binarisers and the BinaryBitmap API against the exact black-pixel model. Caller-supplied luminance / bit rows arrive dirty.",
    note="Trusted: the naive model in checks/c17. Colour-to-luminance conversion is only checked at opaque black / white / gray; single-colour rows may be rejected or binarised exactly.",
    tech="model-based property testing (rapid) against a naive array model"),
  "C11": dict(cat="exploration", ref="DESIGN.md §4 C11",
@@ -82,7 +82,7 @@ CHECKS = {
    note="Totality over generated inputs only. The symbol's own dimensions are obtained from the same writer at 0x0 / margin 0 (QR: Encoder_encode) for the same content and non-geometry hints.",
    tech="robustness property testing (rapid) with a totality and size oracle"),
  "C18": dict(cat="exploration", ref="DESIGN.md §4 C18",
-   text="Schedule exploration under the Go race detector: rapid-generated workloads of 2..64 goroutines with private reader / writer / codec instances over all symbologies, varying GOMAXPROCS, start staggering and yield points; any race report is a violation, and every concurrent result must equal the result of the same operation run alone afterwards. Per-family in-flight counters measure how many configurations really overlapped on the same package-level tables.",
+   text="Schedule exploration under the Go race detector: rapid-generated workloads of 2..64 goroutines with private reader / writer / codec instances over all symbologies, varying GOMAXPROCS, start staggering and yield points; any race report is a violation, and every concurrent result must equal the result of the same operation run alone afterwards. Per-family in-flight counters measure how many configurations really overlapped on the same package-level tables. Workloads include QR symbols with ECI designators in nine charsets (stateful x/text decoders).",
    note="The race detector only reports races on executed paths and interleavings that occurred; rare interleavings on paths no workload drives stay unseen. Exploration is the honest level; model checking the shared state is outside this technique family.",
    tech="randomised concurrent workloads under -race with a sequential-equivalence oracle"),
 }
